@@ -65,8 +65,8 @@ def run(ctx):
         samples += (rep.get("samples") or [])[:2]
         for cr in crashes:
             crashes_total += 1
-            ctx.violation("c06:server-crash:%s:%s" % (cr["func"], "ufs" if ufs else "scripted"),
-                          "server panicked in hostile case %s: %s" % (cr["case"], cr["panic"]),
+            ctx.violation("c06:server-%s:%s:%s" % ("stall" if cr.get("kind") == "stall" else "crash", cr["func"], "ufs" if ufs else "scripted"),
+                          "server %s in hostile case %s: %s" % ("stopped serving" if cr.get("kind") == "stall" else "panicked", cr["case"], cr["panic"]),
                           {"engine": "TestHostile", "ufs": ufs, "case": cr["case"], "seed": ctx.seed})
     # 4. concurrency-dependent crash sites (a request cancelled before it starts, late and extra answers, disconnects in
     #    mid-flight): seeded sessions under the gate controller, with a client that also misuses fids
